@@ -694,6 +694,48 @@ class SimTime:
         return getattr(self._real, name)
 
 
+class SimConnection:
+    """One end of multiprocessing.Pipe(): messages in order, recv() blocks (a scheduling
+    point), send() pickles in the caller - a pickling error is the sender's, unlike a
+    Queue, whose feeder thread drops the item.  Not modelled: send() blocking on a full
+    pipe (the model never blocks a sender, so it can miss a hang but not invent one)."""
+
+    def __init__(self, rq, wq):
+        self._rq = rq
+        self._wq = wq
+
+    def send(self, obj):
+        if self._wq is None:
+            raise OSError("connection is read-only")
+        ForkingPickler.dumps(obj)  # raises in the sender, as Connection.send does
+        self._wq.put(obj)
+
+    def recv(self):
+        if self._rq is None:
+            raise OSError("connection is write-only")
+        return self._rq.get()
+
+    def poll(self, timeout=0.0):
+        if self._rq is None:
+            raise OSError("connection is write-only")
+        if not self._rq.empty():
+            return True
+        if timeout:
+            from .core import HarnessError
+
+            raise HarnessError("procsim does not model Connection.poll(timeout) on an "
+                               "empty pipe")
+        return False
+
+    def close(self):
+        pass
+
+    def __getattr__(self, name):
+        from .core import HarnessError
+
+        raise HarnessError(f"procsim does not model Connection.{name}")
+
+
 class SimMP:
     """What `hypnotoad.utils.parallel_map` sees instead of the multiprocessing module."""
 
@@ -710,6 +752,12 @@ class SimMP:
 
     def cpu_count(self):
         return 16
+
+    def Pipe(self, duplex=True):
+        a, b = SimQueue(self._sim), SimQueue(self._sim)
+        if duplex:
+            return SimConnection(a, b), SimConnection(b, a)
+        return SimConnection(a, None), SimConnection(None, a)
 
     def get_context(self, method=None):
         return self
